@@ -552,6 +552,20 @@ func checkAdminPredicates(c *km.Ctx, s *km.Sem) {
 			}
 		}
 	}
+	// "the administrator's own hardware-token session": the U2F bit of a session is that user's own - the cookie a
+	// factor upgrade re-signs belongs to the user who proved the factor (C05's obligations, as this property's own)
+	if r.Remap == nil {
+		r.Remap = func(rule, fn, construct string) (string, bool) {
+			if rule == "R-C05-3" {
+				return "R-C08-2", true
+			}
+			return "", false
+		}
+		saveExplain, saveND, saveAs := r.Explain, r.NotDecided, r.Assume
+		checkC05(c)
+		r.Explain, r.NotDecided, r.Assume = saveExplain, saveND, saveAs
+		r.Remap = nil
+	}
 	// --- _IsAdminUser: true only from a match
 	if fn := c.MustFunc("R-C08-2", "cmd/keymasterd", "(*RuntimeState)._IsAdminUser"); fn != nil {
 		for _, rc := range s.RetCases(fn) {
